@@ -286,6 +286,14 @@ def main():
                 broken.append("shard %s: rapid ran %s < %d requested checks (deadline?)" % (s.name, got, s.want_checks))
             continue
         if s.rc == "timeout":
+            if os.path.exists(s.failout):
+                # the property saved a failing case (it only does so when its oracle reported a violation) and
+                # the deadline hit while rapid was still shrinking it: a verdict, with the case as it stood
+                h = hashlib.sha1(open(s.failout, "rb").read()).hexdigest()[:10]
+                dst = os.path.join(outdir, "%s-%s.json" % (pid, h))
+                shutil.copy(s.failout, dst)
+                violations.append((dst, "(shard %s hit its deadline while shrinking)\n%s" % (s.name, out[-3000:])))
+                continue
             broken.append("shard %s timed out after %ds\n%s" % (s.name, s.timeout, out[-2000:]))
             continue
         if os.path.exists(s.failout) and ("property %s violated" % pid) in out:
